@@ -297,10 +297,10 @@ def run(ctx):
         tr = traces[int(rejected["tid"]) - 1]
         l = int(rejected["l"])
         evn = tr[min(l, len(tr)) - 1]
-        ctx.violation("render flow: %s at event %s" % (rejected["kind"], evn.get("op")),
-                      "the calls made by nserve.do_render / qs.slave.Worker / nslave.Commands are not a behaviour of "
-                      "RenderFlow.tla (makezip before render; a render worker waits for the makezip job and fails when "
-                      "it failed)", {"trace": tr, "rejected": rejected, "observed_calls": raw})
+        ctx.drift("RenderFlow", "render flow: %s at event %s - "
+                  "the calls made by nserve.do_render / qs.slave.Worker / nslave.Commands are not a behaviour of "
+                  "RenderFlow.tla (makezip before render; a render worker waits for the makezip job and fails when "
+                  "it failed)" % (rejected["kind"], evn.get("op")), {"trace": tr, "rejected": rejected, "observed_calls": raw})
     ctx.cover(states=rf_states, transitions=rf_trans, traces_validated_against_impl=len(traces) if not rejected else 0)
     ctx.set_cover(render_flow_model=rf, render_flow_scenarios=len(traces))
     ctx.sample({"kind": "observed calls of the real render worker (nslave.Commands.rpc_render via qs.slave.Worker.dispatch)",
